@@ -46,3 +46,40 @@ HANDLER(tyfn)
     if (f == "platmax") { PlatformOptions p; return std::to_string(p.maxValueOf((PlatformOptions::ArithmeticIntegerType)a)); }
     return "ERR unknown-fn";
 }
+
+// compat <opts> <hex text> -> for every ordered pair of OBJECT declarations (in source order) four bits:
+//   typesAreCompatible(t1, t2, treatVoidAsAny, ignoreQualifier) for (0,0) (0,1) (1,0) (1,1)
+namespace {
+struct ObjCollector : SyntaxVisitor {
+    const SemanticModel* sema; std::vector<const Type*> tys;
+    ObjCollector(const SyntaxTree* t, const SemanticModel* s) : SyntaxVisitor(t), sema(s) {}
+    bool preVisit(const SyntaxNode* n) override {
+        if (n->kind() == SyntaxKind::IdentifierDeclarator) {
+            auto sym = sema->declarationBy(n->asDeclarator());
+            if (sym) if (auto o = sym->asObjectDeclaration()) tys.push_back(o->type());
+        }
+        return true;
+    }
+};
+}
+HANDLER(compat)
+{
+    std::string o, h; in >> o >> h;
+    auto tree = parse(unhex(h), makeOpts(o), SyntaxTree::SyntaxCategory::Any, TextCompleteness::Full);
+    if (!tree->diagnostics().empty()) return "SYNTAX" + diagstr(tree.get());
+    auto c = compile(std::move(tree));
+    if (!c.sema) return "NOSEMA";
+    ObjCollector col(c.tree, c.sema);
+    col.visit(c.tree->rootNode());
+    TypeChecker checker(const_cast<SemanticModel*>(c.sema), c.tree);
+    std::ostringstream out;
+    out << "OK";
+    for (auto t1 : col.tys)
+        for (auto t2 : col.tys) {
+            out << " ";
+            for (int v = 0; v < 2; ++v)
+                for (int q = 0; q < 2; ++q)
+                    out << (t1 && t2 && checker.typesAreCompatible(t1, t2, v, q) ? 1 : 0);
+        }
+    return out.str();
+}
